@@ -355,7 +355,8 @@ tp_task_start_ex(int shedule_first_io, tp_task_p tptask, uint16_t event,
 	if (0 == IO_BUF_TR_SIZE_GET(buf))
 		goto shedule_io;
 	/* Validate buf. */
-	if ((buf->offset + IO_BUF_TR_SIZE_GET(buf)) > buf->size)
+	if (buf->offset > buf->size ||
+	    IO_BUF_TR_SIZE_GET(buf) > (buf->size - buf->offset))
 		return (EINVAL);
 	ev.event = event;
 	ev.flags = 0;
